@@ -670,6 +670,9 @@ class Unit:
         # body with edits
         bo, be = item.body_open, item.end - 1       # '{' and '}'
         edits = []   # (offset, del_len, [(text, origin)])
+        # rule R34: standard mask/shift facts at the start of every verified body
+        if mode == 'verify' and not getattr(self, 'no_bit_facts', False):
+            edits.append((bo + 1, 0, [(' proof { crate::shim::bit_facts(); }', ('gen', None, 0))]))
         # prelude
         if c and c.prelude:
             edits.append((bo + 1, 0, [('\n', ('gen', None, 0))] + [(t + '\n', ('vspec', c.prelude.file, no)) for t, no in c.prelude.lines]))
@@ -687,6 +690,9 @@ class Unit:
         # loops
         loops = rustscan.find_loops(m, bo + 1, be)
         info['loops'] = len(loops)
+        if mode == 'verify' and not getattr(self, 'no_bit_facts', False):
+            for kw_, k_, q_ in loops:
+                edits.append((q_ + 1, 0, [(' proof { crate::shim::bit_facts(); }', ('gen', None, 0))]))
         # loop contracts are keyed by loop ordinal: if the number of loops in the body differs from the number the
         # contracts were written against (contracts/loop_counts.json), an ordinal may now name a different loop and
         # its invariants would be checked against the wrong loop -- undecided, never a failed obligation
